@@ -18,6 +18,8 @@ def state_names(rng, n, alphabet, kind=None):
     if kind == "tuple":
         return [("q", i) for i in range(n)]
     # names that coincide with alphabet symbols / their concatenations (as from_string produces)
+    if not all(isinstance(x, str) for x in alphabet):
+        return [tuple(alphabet[:1] * i) for i in range(n)]
     names, a = [], list(alphabet)
     for i in range(n):
         names.append((a[0] * i) if i else "")
@@ -25,7 +27,8 @@ def state_names(rng, n, alphabet, kind=None):
 
 
 def gen_wfsa(rng, max_states=5, alphabet=None, acyclic=False, peps=0.25, names=None, max_arcs=9, eps_cycle=None):
-    alphabet = alphabet or ["a", "b", "c"][: rng.randint(1, 3)]
+    if alphabet is None:
+        alphabet = ["a", "b", "c"][: rng.randint(1, 3)] if rng.random() < 0.8 else [0, 1, 2][: rng.randint(1, 3)]
     n = rng.randint(1, max_states)
     arcs = []
     for _ in range(rng.randint(0, max_arcs)):
